@@ -42,6 +42,22 @@ pub fn spec(id: &str) -> Option<Spec> {
                 generate: Box::new(move |t, s, i| c10::gen_case(&plan, t, s, i)),
             })
         }
+        "C09" => {
+            let plan = c09::Plan::new();
+            Some(Spec {
+                id: "C09",
+                level: "exploration",
+                rule: "Each case is one (text, owned target, options) triple: from_str is the reference; from_slice and the str/slice closure helpers must agree; the text with its leading BOM toggled must agree; from_reader and with_deserializer_from_reader must agree under each schedule of the case: ALL 2^(n-1) partitions when the text has at most 13 bytes, otherwise 1-byte reads, one read, a fixed k, random / boundary-hunter lists and two lists that together split at every interesting offset of the text (inside each multi-byte char, CR|LF, indicator|blank, inside --- / ..., at line breaks). Agreement = equal Debug value, or equal error variant and equal line and column. Borrow cases (every 10th): a struct of &str fields over scalars whose style is known by construction. One evaluation = one library call. Non-trivial = a reader execution in which at least one read returned fewer bytes than requested while data remained; distinct = distinct request-trace digests.".into(),
+                assumptions: vec![
+                    "invalid UTF-8 and UTF-16 input are outside the statement (\"the same UTF-8 text\")".into(),
+                    "message text, spans and snippets are not compared across entry points".into(),
+                    "block scalars are not asserted in the borrow clause in either direction".into(),
+                ],
+                components: components(),
+                total: Box::new(c09::total),
+                generate: Box::new(move |t, s, i| c09::gen_case(&plan, t, s, i)),
+            })
+        }
         _ => None,
     }
 }
@@ -50,6 +66,8 @@ pub fn exec(case: &Case, st: &mut Stats) -> Vec<Viol> {
     match case {
         Case::C10R(c) => c10::exec_reader(c, st),
         Case::C10W(c) => c10::exec_writer(c, st),
+        Case::C09(c) => c09::exec_agree(c, st),
+        Case::C09B(c) => c09::exec_borrow(c, st),
     }
 }
 
@@ -57,5 +75,7 @@ pub fn shrink_candidates(case: &Case) -> Vec<Case> {
     match case {
         Case::C10R(c) => c10::shrink_reader(c),
         Case::C10W(c) => c10::shrink_writer(c),
+        Case::C09(c) => c09::shrink_agree(c),
+        Case::C09B(c) => c09::shrink_borrow(c),
     }
 }
